@@ -193,7 +193,42 @@ func WireNormalise(m *dns.Msg) (*dns.Msg, error) {
 	return out, nil
 }
 
-func runQuery(h *server_handler.EntryHandler, sp *spy, rec *Recorder, q Query) (QObs, error) {
+// ---------- joining goroutines ----------
+
+// procBaseline: the number of goroutines of the idle process. Every case
+// starts from it (Quiesce), so that the count right after Build is exactly
+// the idle process plus the persistent goroutines of this case's plugins, and
+// "back to that count" after a query means that nothing started by the query
+// is still running.
+var procBaseline = -1
+
+func waitGoroutines(limit int, max time.Duration) bool {
+	t0 := time.Now()
+	for i := 0; runtime.NumGoroutine() > limit; i++ {
+		if time.Since(t0) > max {
+			return false
+		}
+		if i < 1000 {
+			runtime.Gosched()
+		} else {
+			time.Sleep(50 * time.Microsecond)
+		}
+	}
+	return true
+}
+
+// Quiesce waits until what earlier cases started has ended.
+func Quiesce() {
+	if procBaseline < 0 {
+		procBaseline = runtime.NumGoroutine()
+		return
+	}
+	if !waitGoroutines(procBaseline, 10*time.Second) {
+		procBaseline = runtime.NumGoroutine() // something persistent was left behind: it is part of the idle process now
+	}
+}
+
+func runQuery(h *server_handler.EntryHandler, sp *spy, rec *Recorder, q Query, baseline int) (QObs, error) {
 	qcoq := MsgCoq(q.Msg)
 	in := q.Msg.Copy()
 	sp.err, sp.resp = nil, nil
@@ -202,20 +237,12 @@ func runQuery(h *server_handler.EntryHandler, sp *spy, rec *Recorder, q Query) (
 	if !q.UDP && q.TCPf {
 		pack = pool.PackTCPBuffer
 	}
-	baseline := runtime.NumGoroutine()
 	payload := h.Handle(context.Background(), in, server.QueryMeta{FromUDP: q.UDP, ClientAddr: q.Addr}, pack)
 	// dual_selector and fallback leave sub-executions running on context
 	// copies when they return early; join them (they are the only goroutines
 	// started while Handle ran) so that their effects belong to this query.
-	for i := 0; runtime.NumGoroutine() > baseline; i++ {
-		if i > 2000000 {
-			return QObs{}, errors.New("goroutines started by Handle do not end")
-		}
-		if i < 1000 {
-			runtime.Gosched()
-		} else {
-			time.Sleep(50 * time.Microsecond)
-		}
+	if !waitGoroutines(baseline, 60*time.Second) {
+		return QObs{}, errors.New("goroutines started by Handle do not end")
 	}
 	seen := rec.take()
 	o := QObs{Seen: len(seen)}
@@ -282,17 +309,19 @@ var ErrSlow = errors.New("run too slow, repeated without success")
 func (c *Case) Run(render func() *hx.RNG) (*Result, error) {
 	for attempt := 0; attempt < 6; attempt++ {
 		rec := &Recorder{}
+		Quiesce()
 		b, err := Build(render(), c.Xs, c.Ws, c.Scripts, c.Prog, rec)
 		if err != nil {
 			return nil, err
 		}
+		baseline := runtime.NumGoroutine() // idle process + this case's caches and selectors
 		sp := &spy{inner: b.Entry}
 		h := server_handler.NewEntryHandler(server_handler.EntryHandlerOpts{Entry: sp})
 		t0 := time.Now()
 		obs := make([]QObs, 0, len(c.Queries))
 		var rerr error
 		for _, q := range c.Queries {
-			o, err := runQuery(h, sp, rec, q)
+			o, err := runQuery(h, sp, rec, q, baseline)
 			if err != nil {
 				rerr = err
 				break
